@@ -242,3 +242,122 @@ Proof.
   split; [apply normalize_NoDup|apply normalize_covers_iff].
 Qed.
 Print Assumptions C06_normalize_algebra.
+
+(* ---------------------------------------------------------------------------------------------------- *)
+(* The EVENT path (round 4): what Collection.Pull hands a subscriber through a read mask.  The model of   *)
+(* CollectionChange.filter (Masks/ChangeFilter.v) passes the old AND the new value through FilterClone    *)
+(* whatever the change kind is; the merge stage of the pipeline without backpressure                     *)
+(* (Excess/MergeExcess.v, C09's model of mergeCollectionExcess) only copies values around, so a merged     *)
+(* change - REPLACE in particular, which no write publishes - still carries stored messages.               *)
+From SC Require Import Masks.ChangeFilter Masks.ChangeFilterProofs Excess.Change Excess.MergeExcess.
+
+(* every kind of change (ADD, UPDATE, REMOVE, REPLACE, any other number), every mask without empty
+   segments: both values are projected (nil stays nil), the kind is kept *)
+Theorem C06_change_filter_is_projection : forall sch ty m c,
+  vconforms sch ty c = true -> mask_segs_ok m = true ->
+  change_filter sch ty m c = Some (change_projection m c).
+Proof. exact change_filter_is_projection. Qed.
+Print Assumptions C06_change_filter_is_projection.
+
+Theorem C06_change_filter_never_panics : forall sch ty m c,
+  vconforms sch ty c = true -> change_filter sch ty m c <> None.
+Proof. exact change_filter_never_panics. Qed.
+Print Assumptions C06_change_filter_never_panics.
+
+(* for EVERY interleaving l of changes published to the merge stage and receives by the subscriber's
+   loop (so: every way the reader can be behind), provided the published changes carry stored messages
+   of the type: every delivered change - merged or not - comes out with both values projected *)
+Theorem C06_lossy_events_are_projections : forall sch ty m st l,
+  mask_segs_ok m = true ->
+  (forall c, In (Send c) l -> change_ok sch ty st c = true) ->
+  lossy_deliveries sch ty m st l =
+  map (fun c => Some (change_projection m (interp st c))) (got_of (snd (m_run m_init l))).
+Proof. exact lossy_deliveries_are_projections. Qed.
+Print Assumptions C06_lossy_events_are_projections.
+
+Theorem C06_lossy_events_never_panic : forall sch ty m st l,
+  (forall c, In (Send c) l -> change_ok sch ty st c = true) ->
+  ~ In None (lossy_deliveries sch ty m st l).
+Proof. exact lossy_deliveries_never_panic. Qed.
+Print Assumptions C06_lossy_events_never_panic.
+
+(* an observed event that equals the model of filter satisfies the event clause of C06_ok *)
+Theorem C06_event_judge_sound : forall kind ty m sold snew oold onew,
+  C06_guard (KEvent kind ty m sold snew oold onew) = true ->
+  agrees (KEvent kind ty m sold snew oold onew) = true ->
+  C06_ok (KEvent kind ty m sold snew oold onew) = true.
+Proof. exact event_judge_sound. Qed.
+Print Assumptions C06_event_judge_sound.
+
+(* non-vacuity: Delete then Add of one id behind a reader that is not collecting (the REMOVE is pending
+   when the ADD arrives) is delivered as ONE change of kind REPLACE, old = the deleted message, new = the
+   added one, both projected *)
+Example C06_nonvacuous_replace_is_projected :
+  let v1 := VM [("default_int32", VS (SInt 7)); ("default_string", VS (SStr "old"));
+                ("default_nested_message", VM [("a", VS (SInt 1)); ("corecursive", VM [("default_int64", VS (SInt 5))])])] in
+  let v2 := VM [("default_int32", VS (SInt 8)); ("default_nested_message", VM [("a", VS (SInt 2))])] in
+  let st := fun t : Z => if Z.eqb t 1 then Some v1 else if Z.eqb t 2 then Some v2 else None in
+  let m := Some [["default_string"]; ["default_nested_message"; "a"]] in
+  let l := [Send (mkChange 7 K_REMOVE (Some 1) None 1 false false);
+            Send (mkChange 7 K_ADD None (Some 2) 2 false false); Recv] in
+  forallb (fun a => match a with Send c => change_ok the_schema tat st c | _ => true end) l = true /\
+  mask_segs_ok m = true /\
+  lossy_deliveries the_schema tat m st l =
+  [Some (mkV K_REPLACE
+           (Some (VM [("default_string", VS (SStr "old")); ("default_nested_message", VM [("a", VS (SInt 1))])]))
+           (Some (VM [("default_nested_message", VM [("a", VS (SInt 2))])])))].
+Proof. vm_compute. repeat split; reflexivity. Qed.
+
+(* ---------------------------------------------------------------------------------------------------- *)
+(* WHO OWNS a delivered change (round 4).  Change structs are cells of a heap (Masks/ChangeAlias.v): the  *)
+(* bus hands every subscription the same published struct p; a subscription without backpressure copies    *)
+(* it in its merge stage and filter allocates again whenever a value changed.                              *)
+From SC Require Import Masks.ChangeAlias Masks.ChangeAliasProofs.
+
+(* any number of subscriptions with any masks, in any order: each ends up holding a struct allocated
+   for it alone (all pairwise different, none older than the call), whose values are the projections by
+   ITS OWN mask when all the others are done as well, and no cell that existed before - the published
+   struct included - has been written *)
+Theorem C06_each_subscription_owns_its_projection : forall sch ty ms h p c,
+  wf h -> p < hnext h -> hmap h p = Some c -> vconforms sch ty c = true ->
+  (forall m, In m ms -> mask_segs_ok m = true) ->
+  exists h' ds, fan_out sch ty ms h p = Some (h', ds) /\
+    wf h' /\ hnext h <= hnext h' /\
+    List.length ds = List.length ms /\
+    (forall d, In d ds -> hnext h <= d < hnext h') /\
+    (forall i m d, nth_error ms i = Some m -> nth_error ds i = Some d ->
+                   hmap h' d = Some (change_projection m c)) /\
+    NoDup ds /\
+    (forall q, q < hnext h -> hmap h' q = hmap h q).
+Proof. exact fan_out_own_projection. Qed.
+Print Assumptions C06_each_subscription_owns_its_projection.
+
+(* the alternative in which the merge stage passes the published pointer on and the loop filters the
+   struct where it is: two subscriptions with disjoint masks both hold the published struct, now empty *)
+Theorem C06_shared_change_struct_refuted :
+  let c := mkV 2
+             (Some (VM [("default_int32", VS (SInt 1)); ("default_string", VS (SStr "one"))]))
+             (Some (VM [("default_int32", VS (SInt 2)); ("default_string", VS (SStr "two"))])) in
+  let h := mkH 1 (fun q : Z => if Z.eqb q 0 then Some c else None) in
+  let m0 := Some [["default_int32"]] in
+  let m1 := Some [["default_string"]] in
+  exists h' , fan_out_shared the_schema tat [m0; m1] h 0 = Some (h', [0; 0]) /\
+    hmap h' 0 = Some (mkV 2 (Some (VM [])) (Some (VM []))) /\
+    hmap h' 0 <> Some (change_projection m0 c) /\ hmap h' 0 <> hmap h 0.
+Proof. exact shared_struct_refuted. Qed.
+Print Assumptions C06_shared_change_struct_refuted.
+
+Example C06_nonvacuous_fan_out :
+  let c := mkV 2 (Some (VM [("default_int32", VS (SInt 1)); ("default_string", VS (SStr "one"))]))
+                 (Some (VM [("default_int32", VS (SInt 2)); ("default_string", VS (SStr "two"))])) in
+  let h := mkH 1 (fun q : Z => if Z.eqb q 0 then Some c else None) in
+  match fan_out the_schema tat [Some [["default_int32"]]; None; Some [["default_string"]]] h 0 with
+  | Some (h', ds) =>
+      ds = [2; 3; 5] /\
+      hmap h' 2 = Some (mkV 2 (Some (VM [("default_int32", VS (SInt 1))])) (Some (VM [("default_int32", VS (SInt 2))]))) /\
+      hmap h' 3 = Some c /\
+      hmap h' 5 = Some (mkV 2 (Some (VM [("default_string", VS (SStr "one"))])) (Some (VM [("default_string", VS (SStr "two"))]))) /\
+      hmap h' 0 = Some c
+  | None => False
+  end.
+Proof. vm_compute. repeat split; reflexivity. Qed.
